@@ -12,6 +12,7 @@
 #include <string>
 #include <vector>
 #include <map>
+#include <set>
 #include <memory>
 #include <functional>
 #include <iostream>
@@ -46,10 +47,10 @@ typedef PointXYZIRT PT;
 typedef PointCloudT<PT> PC;
 
 // ---------------------------------------------------------------- interposed clocks
-static bool g_fake_clock = false;
-static uint64_t g_host_us = 0;
-static time_t g_wall = 0;
-static bool g_fake_wall = false;
+static std::atomic<bool> g_fake_clock(false);
+static std::atomic<uint64_t> g_host_us(0);
+static std::atomic<time_t> g_wall(0);
+static std::atomic<bool> g_fake_wall(false);
 extern "C" int clock_gettime(clockid_t id, struct timespec* ts)
 {
   if (g_fake_clock && id == CLOCK_REALTIME)
@@ -67,6 +68,33 @@ extern "C" time_t time(time_t* t)
   else { struct timespec ts; syscall(SYS_clock_gettime, CLOCK_REALTIME, &ts); v = ts.tv_sec; }
   if (t) *t = v;
   return v;
+}
+
+// ---- descriptor bookkeeping (C11): close() of a descriptor that no socket()/epoll_create() of this process returned
+static std::mutex g_fd_mtx;
+static std::set<int> g_fds_open;
+static std::atomic<int> g_badclose(0);
+static std::atomic<bool> g_fd_track(false);
+extern "C" int socket(int domain, int type, int protocol)
+{
+  int fd = (int)syscall(SYS_socket, domain, type, protocol);
+  if (fd >= 0) { std::lock_guard<std::mutex> lg(g_fd_mtx); g_fds_open.insert(fd); }
+  return fd;
+}
+extern "C" int epoll_create(int size)
+{
+  int fd = (int)syscall(SYS_epoll_create1, 0); (void)size;
+  if (fd >= 0) { std::lock_guard<std::mutex> lg(g_fd_mtx); g_fds_open.insert(fd); }
+  return fd;
+}
+extern "C" int close(int fd)
+{
+  if (g_fd_track)
+  {
+    std::lock_guard<std::mutex> lg(g_fd_mtx);
+    if (!g_fds_open.erase(fd)) g_badclose++;
+  }
+  return (int)syscall(SYS_close, fd);
 }
 
 static FILE* OUT = stdout;
@@ -279,6 +307,10 @@ struct Inst
   std::unique_ptr<LidarDriver<PC>> drv;
   bool pktcb = false;
   bool qmode = false; int slow_us = 0; std::atomic<long> qdecoded{0};
+  // lifecycle runs (C11)
+  std::atomic<bool> lmode{false}; std::atomic<bool> stopped{false}; std::atomic<long> npkt{0}; std::string lpath; RSDriverParam lparam;
+  ~Inst() { drv.reset(); if (!lpath.empty()) unlink(lpath.c_str()); }
+  void late(const char* what) { if (stopped) { std::lock_guard<std::recursive_mutex> lg(g_out_mtx); fprintf(OUT, "late %d %s\n", idx, what); } }
 
   int id_of(const std::shared_ptr<PC>& p) { for (auto& kv : bufs) if (kv.second == p) return kv.first; return -1; }
   // input configuration (N line)
@@ -287,6 +319,7 @@ struct Inst
   std::vector<std::pair<int, std::vector<uint8_t>>> dgrams;         // (port, payload)
   std::shared_ptr<PC> get()
   {
+    late("get");
     std::lock_guard<std::recursive_mutex> lg(g_out_mtx);
     if (next_answer < answers.size())
     {
@@ -313,6 +346,7 @@ struct Inst
   }
   void put(std::shared_ptr<PC> c)
   {
+    late("put");
     std::lock_guard<std::recursive_mutex> lg(g_out_mtx);
     fprintf(OUT, "cloud %d %u %d %u %u %d %.9f %zu%s\n", idx, c->seq, id_of(c), c->height, c->width, (int)c->is_dense, c->timestamp, c->points.size(),
             c->frame_id == param.frame_id ? "" : " BADFRAMEID");
@@ -320,6 +354,7 @@ struct Inst
   }
   void pkt(const Packet& p)
   {
+    late("pkt"); npkt++;
     if (qmode)
     {
       // tagged packet of a queue run: which packet is it, and are its bytes the ones that were fed?
@@ -337,6 +372,7 @@ struct Inst
   }
   void err(const Error& e)
   {
+    late("err");
     int c = (int)e.error_code;
     bool hold = false;
     {
@@ -345,7 +381,7 @@ struct Inst
       {
         fprintf(OUT, "ierr %d %d\n", idx, c);
         if (c == ERRCODE_PCAPEXIT) g_pcap_exit++;
-        if (c == ERRCODE_PCAPREPEAT && ++g_pcap_repeat >= 2) hold = true;
+        if (c == ERRCODE_PCAPREPEAT && ++g_pcap_repeat >= 2 && !lmode) hold = true;
       }
       else fprintf(OUT, "err %d %d\n", idx, c);
     }
@@ -393,6 +429,97 @@ static int run_scenario(std::vector<std::string>& lines)
     auto I = [&](size_t i) { return atol(t[i].c_str()); };
     if (c == "B") continue;
     else if (c == "Z") { insts.erase((int)I(1)); }
+    else if (c.size() == 2 && c[0] == 'L')
+    {
+      // lifecycle calls on a driver with real threads (C11); every call is followed by the flags and thread states it left behind
+      auto it = insts.find((int)I(1));
+      if (it == insts.end()) { fprintf(OUT, "nodrv %d\n", (int)I(1)); continue; }
+      Inst* in = it->second.get();
+      in->lmode = true;
+      if (c == "LI" || c == "LS" || c == "LC") in->stopped = false;      // these calls may run callbacks themselves
+      g_fake_clock = false; g_fake_wall = false; g_fd_track = true;
+      auto lstate = [&]() {
+        if (!in->drv) { fprintf(OUT, "lstate %d gone\n", in->idx); return; }
+        auto impl = in->drv->driver_ptr_;
+        bool rj = impl->input_ptr_ ? impl->input_ptr_->recv_thread_.joinable() : false;
+        fprintf(OUT, "lstate %d %d %d %d %d bad=%d\n", in->idx, (int)impl->init_flag_, (int)impl->start_flag_, (int)impl->handle_thread_.joinable(), (int)rj, (int)g_badclose);
+      };
+      if (c == "LC")
+      {
+        // LC i ok : create the object; ok = 0 makes the coming init() fail in the input layer (missing file / port in use)
+        RSDriverParam p = in->param;
+        bool ok = t.size() > 2 ? I(2) != 0 : true;
+        if (in->in_mode == 1 || in->in_mode == 3)
+        {
+          char tmpl[] = "/tmp/rsh_lpcap_XXXXXX";
+          int fd = mkstemp(tmpl); in->lpath = tmpl;
+          FILE* pf = fdopen(fd, "wb");
+          uint32_t gh[6] = {0xa1b2c3d4, 0x00040002, 0, 0, 262144, 1};
+          fwrite(gh, 4, 6, pf);
+          uint32_t sec = 1700000000;
+          for (auto& fr : in->frames)
+          {
+            uint32_t rh[4] = {sec++, 0, (uint32_t)fr.second.size(), fr.first};
+            fwrite(rh, 4, 4, pf);
+            if (!fr.second.empty()) fwrite(fr.second.data(), 1, fr.second.size(), pf);
+          }
+          fclose(pf);
+          p.input_type = InputType::PCAP_FILE; p.input_param.pcap_path = ok ? in->lpath : in->lpath + ".missing";
+          p.input_param.pcap_repeat = in->repeat; p.input_param.pcap_rate = 1000000.0f;
+        }
+        else if (in->in_mode == 2)
+        {
+          p.input_type = InputType::ONLINE_LIDAR;
+          if (!ok) p.input_param.host_address = "203.0.113.77";     // not an address of this host: bind() fails
+        }
+        p.input_param.msop_port = (uint16_t)in->msop_port; p.input_param.difop_port = (uint16_t)in->difop_port;
+        in->lparam = p;
+        in->drv.reset(new LidarDriver<PC>());
+        in->drv->regPointCloudCallback([in]() { return in->get(); }, [in](std::shared_ptr<PC> c) { in->put(c); });
+        in->drv->regExceptionCallback([in](const Error& e) { in->err(e); });
+        in->drv->regPacketCallback([in](const Packet& pk) { in->pkt(pk); });
+        in->stopped = false; in->npkt = 0; g_pcap_exit = 0; g_pcap_repeat = 0;
+        fprintf(OUT, "lcreate %d\n", in->idx);
+      }
+      else if (!in->drv) { fprintf(OUT, "nodrv %d\n", in->idx); continue; }
+      else if (c == "LI") { bool ok = in->drv->init(in->lparam); fprintf(OUT, "linit %d %d\n", in->idx, (int)ok); }
+      else if (c == "LS") { bool ok = in->drv->start(); fprintf(OUT, "lstart %d %d\n", in->idx, (int)ok); }
+      else if (c == "LX") { in->drv->stop(); in->stopped = true; fprintf(OUT, "lstop %d\n", in->idx); }
+      else if (c == "LP") { Packet pk; if (t.size() > 2) pk.buf_ = unhex(t[2]); in->drv->decodePacket(pk); }
+      else if (c == "LW")
+      {
+        auto impl = in->drv->driver_ptr_;
+        if (impl->start_flag_)
+        {
+          long last = -1; int stable = 0;
+          for (int k = 0; k < 5000 && stable < 10; k++)
+          {
+            bool empty;
+            { std::lock_guard<std::mutex> lg(impl->pkt_queue_.mtx_); empty = impl->pkt_queue_.queue_.empty(); }
+            long d = in->npkt;
+            if (empty && d == last) stable++; else stable = 0;
+            last = d;
+            std::this_thread::sleep_for(std::chrono::milliseconds(2));
+          }
+        }
+        fprintf(OUT, "lproc %d %ld\n", in->idx, (long)in->npkt);
+      }
+      else if (c == "LE")
+      {
+        // wait for the end of the capture file (no-repeat) or for the second replay (repeat)
+        for (int k = 0; k < 3000; k++)
+        {
+          if (in->repeat ? (g_pcap_repeat >= 1) : (g_pcap_exit >= 1)) break;
+          std::this_thread::sleep_for(std::chrono::milliseconds(2));
+        }
+        std::this_thread::sleep_for(std::chrono::milliseconds(20));
+        fprintf(OUT, "leof %d %d\n", in->idx, (int)(in->repeat ? g_pcap_repeat >= 1 : g_pcap_exit >= 1));
+        g_pcap_exit = 0; g_pcap_repeat = 0;
+      }
+      else if (c == "LD") { in->drv.reset(); in->stopped = true; fprintf(OUT, "ldestroy %d\n", in->idx); }
+      if (c != "LP") lstate();
+      g_fd_track = false;
+    }
     else if (c == "Q")
     {
       // Q i nprod npkt prefill slow_us seed trace : tagged packets through the real queues with real threads
